@@ -169,8 +169,9 @@ End Keys.
 
 (* ---------- filters ---------- *)
 Lemma filters_sem : forall m q ps binds r out (fl : list qfilter) sfs fvals,
-  Forall2 (fun f sf => exists xv, sf = filter_form m q f xv /\
-             forall v r out, operand_value ps (fl_val f) = Some v -> scanon (sx_eval binds r out xv) = vcanon v) fl sfs ->
+  Forall2 (fun f sf => exists xv dx, sf = filter_form m q f xv dx /\
+             (forall v r out, operand_value ps (fl_val f) = Some v -> scanon (sx_eval binds r out xv) = vcanon v) /\
+             (forall d r out, filter_dflt m q f = Some d -> scanon (sx_eval binds r out dx) = vcanon d)) fl sfs ->
   Forall2 (fun f y => operand_value ps (fl_val f) = Some y) fl fvals ->
   (forall k, scanon (sx_eval binds r out (XOut k)) = vcanon (ref_value m q r (FByAlias k))) ->
   (forall f, In f fl -> fl_val f = OLit VNull -> filter_default m q f = None) ->
@@ -180,11 +181,11 @@ Lemma filters_sem : forall m q ps binds r out (fl : list qfilter) sfs fvals,
   forallb (fun fv : qfilter * val => holds (fl_op (fst fv)) (ref_value m q r (fl_ref (fst fv))) (snd fv)) (combine fl fvals).
 Proof.
   intros m q ps binds r out fl sfs fvals H. revert fvals.
-  induction H as [|f sf fl sfs (xv & -> & Hxv) Hrest IH]; intros fvals Hv Hal Hw1 Hw2 Hk6.
+  induction H as [|f sf fl sfs (xv & dx & -> & Hxv & Hdx) Hrest IH]; intros fvals Hv Hal Hw1 Hw2 Hk6.
   - inversion Hv. reflexivity.
   - inversion Hv as [|? v ? fvals' Hfv Hvrest]; subst. cbn [forallb combine fst snd]. f_equal.
     + apply filter_sem.
-      * reflexivity.
+      * intros d Hd. apply Hdx. exact Hd.
       * apply Hxv. exact Hfv.
       * exact Hal.
       * intros Hl. rewrite Hl in Hfv. simpl in Hfv. congruence.
@@ -213,13 +214,13 @@ Proof.
 Qed.
 
 Lemma run_sql_unfold : forall rows s binds ln lk,
-  stmt_malformed s = false -> lim_value binds (st_limit s) = Some ln -> lim_value binds (st_offset s) = Some lk ->
+  lim_value binds (st_limit s) = Some ln -> lim_value binds (st_offset s) = Some lk ->
   run_sql rows s binds =
   Some (map (json_object binds s)
             (limit_list ln (offset_list lk (ssort (srow_cmp binds s)
                (filter (fun r => is_true (where_eval binds r (json_object binds s r) s)) rows))))).
 Proof.
-  intros rows s binds ln lk Hm Hl Hk. unfold run_sql. rewrite Hm, Hl, Hk. destruct ln, lk; reflexivity.
+  intros rows s binds ln lk Hl Hk. unfold run_sql. rewrite Hl, Hk. destruct ln, lk; reflexivity.
 Qed.
 
 (* ---------- paging ---------- *)
@@ -272,9 +273,7 @@ Proof.
   intros m rows q ps Hwf Hpo Hk.
   unfold known_query in Hk.
   apply cls_nil in Hk. destruct Hk as [K1 Hk]. apply cls_nil in Hk. destruct Hk as [K2 Hk].
-  apply cls_nil in Hk. destruct Hk as [K3 Hk]. apply cls_nil in Hk. destruct Hk as [K4 Hk].
-  apply cls_nil in Hk. destruct Hk as [K5 Hk]. apply cls_nil in Hk. destruct Hk as [K6 Hk].
-  apply cls_nil in Hk. destruct Hk as [K7 K8]. apply cls_nil1 in K8.
+  apply cls_nil in Hk. destruct Hk as [K3 Hk]. apply cls_nil in Hk. destruct Hk as [K6 K7]. apply cls_nil1 in K7.
   unfold wf_query in Hwf. apply andb_prop in Hwf. destruct Hwf as [Hwf W4]. apply andb_prop in Hwf. destruct Hwf as [Hwf W3].
   apply andb_prop in Hwf. destruct Hwf as [W1 W2].
   unfold params_ok in Hpo. apply andb_prop in Hpo. destruct Hpo as [Hpo P4]. apply andb_prop in Hpo. destruct Hpo as [Hpo P3].
@@ -311,13 +310,6 @@ Proof.
   destruct (bind_total ps vf) as [binds Hb].
   { intros p Hin Hf. specialize (P1 _ (Hent p Hin Hf)). destruct (lookup (snd p) ps); congruence. }
   rewrite Hb.
-  (* no variable is captured by a literal *)
-  assert (Hvok : forall n, In n (query_vars q) -> var_ok vf n).
-  { intros n Hn p Hfm. destruct (fst p) eqn:E; [exfalso | reflexivity].
-    unfold k_collision in K5. rewrite Ec in K5. cbn [fst] in K5.
-    assert (Hex : existsb (fun n0 => match find (fun p0 : pentry => str_eqb n0 (snd p0)) vf with Some p0 => fst p0 | None => false end) (query_vars q) = true).
-    { apply existsb_exists. exists n. split. exact Hn. unfold fm in Hfm. rewrite Hfm. exact E. }
-    congruence. }
   (* the reference side *)
   destruct (all_some_Forall2 _ _ (fun f => operand_value ps (fl_val f)) (q_filters q)) as (fvals & Hfv & Hfv2).
   { intros f Hin. destruct (fl_val f) as [v|n] eqn:Ev; simpl. discriminate.
@@ -331,23 +323,10 @@ Proof.
   assert (Hsk : exists k, sk = Some (Some k)).
   { subst sk. destruct (q_skip q) as [o|]. destruct (option_map as_int (operand_value ps o)) as [[k|]|]; try discriminate. exists k. reflexivity. exists 0. reflexivity. }
   destruct Hsk as [k Hsk]. rewrite Hsk.
-  (* the statement is well-formed *)
-  destruct (C4 vf ps binds n k (pfx_refl _) Hb (fun nm H => Hvok nm (vars_first q nm H)) (fun nm H => Hvok nm (vars_skip q nm H)) Ef Hsk K7 K4)
-    as (ln & lk & Hln & Hlk & Hlim & Hoff & Hmal).
+  destruct (C4 vf ps binds n k (pfx_refl _) Hb Ef Hsk K7) as (ln & lk & Hln & Hlk & Hlim & Hoff).
   pose proof (C1 vf ps binds Hpf1 Hb) as HC1. rewrite <- Ssel in HC1.
-  pose proof (C2 vf ps binds Hpf2 Hb (fun f nm Hin Hv => Hvok nm (vars_filter q f nm Hin Hv))) as HC2.
-  assert (Hnm : stmt_malformed s = false).
-  { unfold stmt_malformed. rewrite Sfs, Slim, Soff, Hmal, orb_false_r.
-    eapply filters_not_malformed with (m := m) (q := q) (fs := q_filters q).
-    - eapply Forall2_weaken; [|exact HC2]. intros f sf (xv & Hx & _). exists xv. split. exact Hx. exact I.
-    - intros f Hin. unfold k_spliced in K8.
-      destruct (match filter_default m q f with Some (VStr s0) => has_quote s0 | _ => false end) eqn:E; [|reflexivity].
-      exfalso. assert (Hex : existsb (fun f0 => match ref_field q (fl_ref f0) with
-                                              | Some i => match default_of m i with Some (VStr s0) => has_quote s0 | _ => false end
-                                              | None => false end) (q_filters q) = true).
-      { apply existsb_exists. exists f. split. exact Hin. unfold filter_default in E. destruct (ref_field q (fl_ref f)); [exact E | discriminate]. }
-      congruence. }
-  rewrite (run_sql_unfold rows s binds ln lk Hnm); try (rewrite ?Slim, ?Soff; assumption).
+  pose proof (C2 vf ps binds Hpf2 Hb) as HC2.
+  rewrite (run_sql_unfold rows s binds ln lk); try (rewrite ?Slim, ?Soff; assumption).
   rewrite Hlim, Hoff, ssort_isort.
   assert (Hwhere : forall r, In r rows ->
      is_true (where_eval binds r (json_object binds s r) s) =
@@ -397,7 +376,6 @@ Proof.
       assert (HF2 : Forall2 (fun (ko0 : okey * operand) c => operand_value ps (snd ko0) = Some c) (combine (q_order q) vs) cur).
       { apply (Forall2_combine_order (fun o c => operand_value ps o = Some c)). exact Hcur2. exact W4b. }
       rewrite (C3 vf ps binds Hpf3 Hb) with (kval := kval m q r) (cd := []) (ct := cur).
-      2: { intros ko0 nm Hin Hn. simpl in Hin. apply Hvok. eapply vars_paging. rewrite Epv. eapply in_combine_snd. exact Hin. exact Hn. }
       2: { intros k0. apply (kval_canon m q rows binds s HC1 K3 K2 r k0 Hr). }
       2: constructor.
       2: exact HF2.
